@@ -1,0 +1,66 @@
+//go:build verif
+
+package main
+
+import (
+	"bufio"
+	"encoding/hex"
+	"fmt"
+	"strconv"
+	"strings"
+
+	"github.com/goccmack/gocc/internal/util"
+	"github.com/goccmack/gocc/internal/util/md"
+)
+
+func init() {
+	commands["litconv"] = cmdLitConv
+	commands["md"] = cmdMd
+}
+
+// cmdLitConv: per hex-encoded literal (with quotes) prints
+//   <LitToRune value or PANIC> <strconv.UnquoteChar-based Go value or INVALID>
+func cmdLitConv(in *bufio.Reader, out *bufio.Writer, _ []string) {
+	sc := bufio.NewScanner(in)
+	sc.Buffer(make([]byte, 1<<20), 1<<26)
+	for sc.Scan() {
+		lit, err := hex.DecodeString(strings.TrimSpace(sc.Text()))
+		if err != nil {
+			panic(err)
+		}
+		func() {
+			defer func() {
+				if r := recover(); r != nil {
+					fmt.Fprintf(out, "PANIC")
+				}
+			}()
+			fmt.Fprintf(out, "%d", util.LitToRune(lit))
+		}()
+		out.WriteByte(' ')
+		// Go's own reading of the literal
+		s := string(lit)
+		if v, err := strconv.Unquote(s); err == nil && len(s) >= 2 && s[0] == '\'' {
+			r := []rune(v)
+			if len(r) == 1 {
+				fmt.Fprintf(out, "%d\n", r[0])
+				continue
+			}
+		}
+		fmt.Fprintf(out, "INVALID\n")
+	}
+}
+
+// cmdMd: per hex-encoded UTF-8 document prints loadMd's output (hex, UTF-8).
+func cmdMd(in *bufio.Reader, out *bufio.Writer, _ []string) {
+	sc := bufio.NewScanner(in)
+	sc.Buffer(make([]byte, 1<<20), 1<<26)
+	for sc.Scan() {
+		b, err := hex.DecodeString(strings.TrimSpace(sc.Text()))
+		if err != nil {
+			panic(err)
+		}
+		r := []rune(string(b))
+		md.VerifLoadMd(r)
+		fmt.Fprintf(out, "%s\n", hex.EncodeToString([]byte(string(r))))
+	}
+}
